@@ -146,6 +146,23 @@ def judge(ctx, case, stream, opts, scripting, label):
     if strict_raised is not None and strict_raised != bool(errs):
         ctx.violation("strict-vs-errors-disagree", case, "%s: errors=%r strict raised=%r" % (label, errs[:2], strict_raised))
         return
+    # text written raw (inside an element the serializer treats as raw text: by bare name) that contains "</" cannot be
+    # represented; the property then requires the error branch
+    if not so.get("escape_rcdata"):
+        st = []
+        for t in stream:
+            ty = t["type"]
+            if ty == "StartTag":
+                st.append(t["name"])
+            elif ty == "EndTag" and st:
+                st.pop()
+            elif ty in ("Characters", "SpaceCharacters") and st and st[-1] in RAWNAMES and "</" in t["data"]:
+                ctx.count("raw_text_with_end_tag_sequences")
+                if not errs:
+                    ctx.violation("raw-text-with-end-tag-not-reported", case,
+                                  "%s: text %r inside <%s> is written raw and no serialization error was recorded" % (label, t["data"][:60], st[-1]))
+                    return
+                break
     if errs:
         ctx.count("error_reported")
         return
